@@ -1,0 +1,60 @@
+//go:build verif
+
+package routing
+
+// Exporting shims for the external verification harness (property C07).
+// No behaviour: they only make the unexported combination entry points
+// callable from outside the package and hand the produced SPOE actions over
+// as plain values.
+
+import (
+	"lunar/engine/actions"
+	lunar_messages "lunar/engine/messages"
+
+	"github.com/negasus/haproxy-spoe-go/action"
+)
+
+// VerifSPOEVar is one SPOE action as produced (Set is false for unset-var).
+type VerifSPOEVar struct {
+	Set   bool
+	Scope string // process | session | transaction | request | response
+	Name  string
+	Value interface{}
+}
+
+func VerifFlattenSPOEActions(as action.Actions) []VerifSPOEVar {
+	out := make([]VerifSPOEVar, 0, len(as))
+	for _, a := range as {
+		scope := "unknown"
+		switch a.Scope {
+		case action.ScopeProcess:
+			scope = "process"
+		case action.ScopeSession:
+			scope = "session"
+		case action.ScopeTransaction:
+			scope = "transaction"
+		case action.ScopeRequest:
+			scope = "request"
+		case action.ScopeResponse:
+			scope = "response"
+		}
+		out = append(out, VerifSPOEVar{
+			Set: a.Type == action.TypeSetVar, Scope: scope, Name: a.Name, Value: a.Value,
+		})
+	}
+	return out
+}
+
+func VerifGetSPOEReqActions(
+	args lunar_messages.OnRequest,
+	lunarActions []actions.ReqLunarAction,
+) []VerifSPOEVar {
+	return VerifFlattenSPOEActions(getSPOEReqActions(args, lunarActions))
+}
+
+func VerifGetSPOERespActions(
+	args lunar_messages.OnResponse,
+	lunarActions []actions.RespLunarAction,
+) []VerifSPOEVar {
+	return VerifFlattenSPOEActions(getSPOERespActions(args, lunarActions))
+}
